@@ -22,7 +22,8 @@ CONSTANTS Mode,         \* "dag" | "pregel" | "wf"
           N,            \* number of nodes, 2..4
           MaxEdges,
           FailKinds,    \* subset of {"err", "panic"}: one END-feeding node may fail this way (the empty choice is always included)
-          AllowDangling \* wf: nodes that nothing consumes (executions the run does not wait for)
+          AllowDangling, \* wf: nodes that nothing consumes (executions the run does not wait for)
+          MaxRerun      \* up to this many END-feeding nodes ask for InterruptAndRerun on their first attempt (only without a failing node)
 
 AllNames == <<"a", "b", "c", "d">>
 Nodes == {AllNames[i] : i \in 1..N}
@@ -32,14 +33,14 @@ Ord(n) == CASE n = START -> 0 [] n = "a" -> 1 [] n = "b" -> 2 [] n = "c" -> 3 []
 EdgeU == {e \in (Nodes \cup {START}) \X (Nodes \cup {END}) : Ord(e[1]) < Ord(e[2]) /\ ~(e[1] = START /\ e[2] = END)}
 ERank(e) == Ord(e[1]) * 10 + Ord(e[2])
 
-VARIABLES phase, edges, fail
-vars == <<phase, edges, fail>>
+VARIABLES phase, edges, fail, rerun
+vars == <<phase, edges, fail, rerun>>
 
-Init == phase = "e" /\ edges = {} /\ fail = <<>>
+Init == phase = "e" /\ edges = {} /\ fail = <<>> /\ rerun = {}
 
 MaxRank == IF edges = {} THEN 0 ELSE CHOOSE m \in {ERank(x) : x \in edges} : \A y \in edges : ERank(y) <= m
 AddEdge(e) == /\ phase = "e" /\ Cardinality(edges) < MaxEdges /\ ERank(e) > MaxRank
-              /\ edges' = edges \cup {e} /\ UNCHANGED <<phase, fail>>
+              /\ edges' = edges \cup {e} /\ UNCHANGED <<phase, fail, rerun>>
 
 Preds(n) == {e[1] : e \in {x \in edges : x[2] = n}}
 Succs(n) == {e[2] : e \in {x \in edges : x[1] = n}}
@@ -63,6 +64,7 @@ WellFormed ==
 Fails == {<<>>} \cup {<<[n |-> n, kind |-> k]>> : n \in EndAnc, k \in FailKinds}
 Finish == /\ phase = "e" /\ WellFormed
           /\ \E f \in Fails : fail' = f
+          /\ \E rr \in SUBSET EndAnc : Cardinality(rr) <= MaxRerun /\ (fail' # <<>> => rr = {}) /\ rerun' = rr
           /\ phase' = "done" /\ UNCHANGED edges
 Next == (\E e \in EdgeU : AddEdge(e)) \/ Finish
 Spec == Init /\ [][Next]_vars
@@ -81,6 +83,6 @@ SeqOfSet(S, R(_)) == LET RECURSIVE F(_)
                      IN F(S)
 NodeSeq == SeqOfSet(Nodes, Ord)
 EdgeSeq == [i \in 1..Cardinality(edges) |-> LET e == SeqOfSet(edges, ERank)[i] IN <<e[1], e[2]>>]
-Case == [mode |-> Mode, nodes |-> NodeSeq, edges |-> EdgeSeq, fail |-> fail, orders |-> LinExt(Nodes), probes |-> Probes]
+Case == [mode |-> Mode, nodes |-> NodeSeq, edges |-> EdgeSeq, fail |-> fail, rerun |-> SeqOfSet(rerun, Ord), orders |-> LinExt(Nodes), probes |-> Probes]
 Emit == phase = "done" => PrintT(<<"CASE", ToJson(Case)>>)
 ================================================================================
